@@ -287,3 +287,13 @@ def run(facts, rep, tier):
         rep.ob("C07.W3", "active-remove-on-pop", okq, "popping the stack removes the node from the active set" if okq else "a node is popped without leaving the active set (later siblings would be boxed needlessly) or never popped", pops[0][0].get("sp") if pops else None)
         vins = [(n, a) for n, a in nodes(h["body"], "mcall") if n["name"] == "insert" and src(n["recv"]) == visited]
         rep.ob("C07.W3", "visited-insert", bool(vins), "a node is marked visited when first expanded" if vins else "nodes are never marked visited", vins[0][0].get("sp") if vins else None)
+        # a node is marked visited when *it* is expanded, never when it is merely queued as somebody's child: a queued
+        # sibling that is "visited" but neither active nor finished hides the back edges that reach it in the meantime
+        cnv = Canon(c, h, 3)
+        for i_, (n, a) in enumerate(vins):
+            in_adaptor = any(x.get("k") == "closure" for x in a)
+            argt = cnv.r(n["args"][0]) if n.get("args") else ""
+            own = bool(re.search(r"~Start\.type_id$|^TypeId\(", argt)) or argt.startswith("TypeId(")
+            okv = own and not in_adaptor
+            rep.ob("C07.W3", "visited-means-expanded#%d" % i_, okv, "`%s` marks the node being expanded" % src(n)[:50] if okv else
+                   "`%s` marks a node visited %s: a child that waits in its parent's list is then skipped as a root and is neither active nor finished, so a cycle among siblings is never cut (infinitely sized type)" % (src(n)[:60], "while its parent's children are being filtered" if in_adaptor else "that is not the node being expanded"), n.get("sp"))
